@@ -54,6 +54,7 @@ let run (path : string) =
               | 'S' -> (match split_on '=' (String.sub o 1 (String.length o - 1)) with [id; tg] -> OpStore (num id, tagn tg) | _ -> failwith o)
               | 'G' -> OpGet (num (String.sub o 1 (String.length o - 1)))
               | 'D' -> OpDelete (num (String.sub o 1 (String.length o - 1)))
+              | 'I' -> (match split_on '=' (String.sub o 1 (String.length o - 1)) with [id; tg] -> OpDeleteIf (num id, tagn tg) | _ -> failwith o)
               | _ -> failwith o) in
         let s = ref st_new in
         let mres = List.map (fun o -> let (r, s') = st_step !s (parse_op o) in s := s';
